@@ -215,6 +215,14 @@ impl Obs {
     }
 }
 
+/// The name of a file relative to the ws/ directory of the simulated disk ("a.st", "d1/a.st").
+pub fn ws_relative(file: &str) -> &str {
+    match file.find("/ws/") {
+        Some(p) => &file[p + 4..],
+        None => file.rsplit('/').next().unwrap_or(file),
+    }
+}
+
 pub fn file_text(world: &World, f: &FileSpec) -> String {
     let mut s = String::new();
     for d in &f.decls {
@@ -233,7 +241,7 @@ pub fn file_bytes(world: &World, f: &FileSpec) -> Vec<u8> {
 /// Maps (file name inside ws, byte offset in the decoded text) to (declaration index, offset
 /// inside that declaration).
 pub fn map_offset(world: &World, files: &[FileSpec], file: &str, offset: usize) -> Option<(usize, usize)> {
-    let name = file.rsplit('/').next().unwrap_or(file);
+    let name = ws_relative(file);
     let f = files.iter().find(|f| f.name == name)?;
     if f.raw.is_some() {
         return None;
@@ -292,7 +300,11 @@ pub fn lay_out(world: &World, v: &Variant) {
     let ws = r.join("ws");
     std::fs::create_dir_all(&ws).expect("create ws");
     for f in &v.files {
-        std::fs::write(ws.join(&f.name), file_bytes(world, f)).expect("write file");
+        let path = ws.join(&f.name);
+        if let Some(parent) = path.parent() {
+            let _ = std::fs::create_dir_all(parent);
+        }
+        std::fs::write(path, file_bytes(world, f)).expect("write file");
     }
     for e in &v.extras {
         match e {
